@@ -81,7 +81,7 @@ def same_nested(x, y):
 # (a) batching
 def body_batching(E, api, n, mode, b, base):
     api = concretize(api, 0, 3)
-    n = concretize(n, 1, 8)
+    n = concretize(n, 1, 10)
     mode = concretize(mode, 0, 2)
     N = total(api, n)
     b = concretize(b, 1, N + 2)
